@@ -3,7 +3,9 @@ ENTRY = {
     "families": [fam("C17", 600, 30000)],
     "gen_items": [],
     "rule": "cases: REAL Iceberg tables written by the harness (JSON metadata files, Avro manifest list + manifests through apache-avro, Null or Deflate codec, v2 or v1 "
-            "manifest schema, one small Parquet file per data file) for generated histories of 1-8 ops: append 1-4 files (50%), remove a random subset / everything / a file "
+            "manifest schema, one small Parquet file per data file) with spec-conformant v2 manifest-list records (manifest_length, content, sequence numbers, added_snapshot_id, added/existing/deleted_files_count and *_rows_count "
+            "consistent with the manifest's entries; 1/6 v1-style lists without counts) for generated histories of 1-8 ops (1/3 prefixed by: append >= 2 files into one manifest, remove some "
+            "but not all of them, append again): append 1-4 files (50%), remove a random subset / everything / a file "
             "that is not there (30%), manifest rewrite (10%), metadata-only rewrite (10%); data-file, manifest and manifest-list URIs in one of the four accepted forms or "
             "mixed per file; metadata discovery: directory scan with increasing / all-equal / random last-updated-ms and file-name prefixes that disagree with it (3/4), or "
             "version-hint.text ('N' or 'vN', pointing at the newest, an older or a missing version) (1/4); opened at the current snapshot (2/3), a listed snapshot id or an "
@@ -19,7 +21,7 @@ ENTRY = {
         "(a table whose one manifest ADDs a file while another manifest of the same list marks it DELETED is outside the generated space; the reader would serve it)",
         "snapshot ids are distinct; partition specs, sequence numbers, schemas evolution and expired snapshots are not modelled",
     ],
-    "min_tags": {"served": 1, "hint": 1, "scan-metadata": 1, "time-travel": 1, "has-remove": 1, "has-rewrite": 1, "refused-emptySnapshot": 1, "refused-unknownSnapshot": 1},
+    "min_tags": {"served": 1, "hint": 1, "scan-metadata": 1, "time-travel": 1, "has-remove": 1, "has-rewrite": 1, "refused-emptySnapshot": 1, "refused-unknownSnapshot": 1, "mlist:counts": 1, "mlist:v1": 1, "remove-then-append": 1},
     "manifest": {
         "category": "proof",
         "text": "Lean theorems over the executable model of the Iceberg reader and an abstract table history: for EVERY history of appends / removals / manifest rewrites / "
